@@ -6,16 +6,16 @@ package verifsim
 
 import (
 	"context"
-	"encoding/json"
-	"os"
-	"regexp"
 	"crypto/sha256"
 	"encoding/binary"
 	"encoding/hex"
+	"encoding/json"
 	"fmt"
 	"hash"
 	"io"
 	"math/rand"
+	"os"
+	"regexp"
 	"sort"
 	"strings"
 	"sync"
@@ -125,7 +125,7 @@ type Env struct {
 	Overlap   bool // scenario had >= 2 overlapping actors / in-flight operations
 	Note      map[string]any
 	simSec    float64
-	unstable  string // set when the run met a source of order the simulator does not control (DESIGN 8.1)
+	unstable  string            // set when the run met a source of order the simulator does not control (DESIGN 8.1)
 	KnownHits map[string]string // known-finding classes met in this run (class -> first message)
 	RunIndex  uint64            // index of the run within the batch (systematic enumeration of short fault scripts)
 }
